@@ -170,4 +170,47 @@ theorem greedy_sound (pick : List Nat → Option Nat) (t : Tbl)
           obtain ⟨r, hr⟩ := hpre
           rw [← hr, List.drop_left]
 
+/-- a symbol that matches the window `rest ++ term :: junk` but is free of the terminator (or is a single byte)
+ends inside `rest`: the sentinel is never consumed -/
+theorem prefix_stops_at_sentinel {l rest junk : List Nat} {term : Nat} (_hl : l ≠ []) (hrest : rest ≠ [])
+    (hfree : 2 ≤ l.length → term ∉ l) (hpre : l <+: rest ++ term :: junk) : l <+: rest := by
+  by_cases hlen : l.length ≤ rest.length
+  · exact List.prefix_of_prefix_length_le hpre (List.prefix_append _ _) hlen
+  · exfalso
+    have hr : 0 < rest.length := List.length_pos_iff.mpr hrest
+    have hmem : term ∈ l := by
+      obtain ⟨r, hr'⟩ := hpre
+      have h1 : (rest ++ term :: junk)[rest.length]? = some term := by simp
+      have h2 : (l ++ r)[rest.length]? = l[rest.length]? := List.getElem?_append_left (by omega)
+      rw [← hr', h2] at h1
+      exact List.mem_of_getElem? h1
+    exact hfree (by omega) hmem
+
+/-- the windowed matcher is sound on the string itself when the table keeps the terminator out of multi-byte symbols -/
+theorem windowed_sound (pick : List Nat → Option Nat) (t : Tbl) (junk : List Nat)
+    (hp : ∀ win c, pick win = some c → c ≠ ESC ∧ t.sym c ≠ [] ∧ t.sym c <+: win)
+    (hinv : ∀ c, 2 ≤ (t.sym c).length → t.term ∉ t.sym c) :
+    ∀ s c, windowed pick t.term junk s = some c → c ≠ ESC ∧ t.sym c ≠ [] ∧ t.sym c <+: s := by
+  intro s c h
+  cases s with
+  | nil => cases h
+  | cons b rest =>
+    obtain ⟨h1, h2, h3⟩ := hp _ _ h
+    refine ⟨h1, h2, ?_⟩
+    have : b :: rest ++ t.term :: junk = (b :: rest) ++ t.term :: junk := rfl
+    rw [this] at h3
+    exact prefix_stops_at_sentinel h2 (by simp) (hinv c) h3
+
+theorem termFree_sym (t : Tbl) (h : t.termFree = true) (c : Nat) (hc : 2 ≤ (t.sym c).length) :
+    t.term ∉ t.sym c := by
+  unfold Tbl.sym at *
+  by_cases hlt : c < t.syms.size
+  · have hm : t.syms[c] ∈ t.syms.toList := Array.mem_toList_iff.mpr (Array.getElem_mem hlt)
+    have := (List.all_eq_true.mp h) _ hm
+    simp only [Array.getD_eq_getD_getElem?, Array.getElem?_eq_getElem hlt, Option.getD_some] at hc ⊢
+    intro hmem
+    have hc' : ¬ t.syms[c].length < 2 := by omega
+    simp [hc', hmem] at this
+  · simp [Array.getD_eq_getD_getElem?, Array.getElem?_eq_none (Nat.le_of_not_lt hlt)] at hc
+
 end LanceModel.C28.Fsst
